@@ -1,19 +1,733 @@
+//! C19 — Maven dependency resolution follows nearest-wins mediation and scope rules.
+//!
+//! Engine: exhaustive, deviation-bounded enumeration of POM universes (artifacts a<b<c<d × versions
+//! {1,2}, dependencies only to later artifacts). Every universe is rendered to POM XML, served from memory
+//! through the crate's `Downloader` trait (the XML is bound to `MavenPom` with serde-xml-rs exactly as the
+//! application does) and resolved by the real `get_maven_dependencies`; the answer is compared with a
+//! reference resolver written from the statement and the Maven documentation (`c19/oracle.rs`).
+
+#[path = "c19/model.rs"]
+mod model;
+#[path = "c19/oracle.rs"]
+mod oracle;
+#[path = "c19/gen.rs"]
+mod gen;
+
+use std::collections::BTreeMap;
+use std::future::Future;
+use std::str::FromStr;
+use std::task::{Context, Poll, RawWaker, RawWakerVTable, Waker};
+use maven_dependency_resolver::coord::MavenCoord;
 use maven_dependency_resolver::maven_pom::MavenPom;
+use maven_dependency_resolver::resolver::Resolver;
+use maven_dependency_resolver::{get_maven_dependencies, DependencyScope, Downloader, FoundDependency};
+use rayon::prelude::*;
+use vcore::{json, Ctx, Stats, Value};
+use gen::{Base, Dev};
+use model::{Sc, Universe, GROUP, SCOPES};
+use oracle::{Fail, Facts, Found, Sem};
+
+// ---------------------------------------------------------------------------------------------
+// driving the real code
+
+fn block_on<F: Future>(f: F) -> F::Output {
+	fn raw() -> RawWaker {
+		fn clone(_: *const ()) -> RawWaker {
+			raw()
+		}
+		fn noop(_: *const ()) {}
+		static VT: RawWakerVTable = RawWakerVTable::new(clone, noop, noop, noop);
+		RawWaker::new(std::ptr::null(), &VT)
+	}
+	// SAFETY: the vtable functions do nothing and the data pointer is never dereferenced
+	let waker = unsafe { Waker::from_raw(raw()) };
+	let mut cx = Context::from_waker(&waker);
+	let mut f = std::pin::pin!(f);
+	match f.as_mut().poll(&mut cx) {
+		Poll::Ready(v) => v,
+		Poll::Pending => vcore::machinery_fail("a future of the resolver returned Pending although the downloader is always ready"),
+	}
+}
+
+/// The repositories: url → POM text. Every request binds the text to `MavenPom` with serde-xml-rs.
+struct Mem {
+	files: BTreeMap<String, String>,
+}
+
+impl Downloader for Mem {
+	#[allow(clippy::manual_async_fn)]
+	fn get_maven_pom(&self, url: &str) -> impl Future<Output = anyhow::Result<Option<MavenPom>>> + Send {
+		let r: anyhow::Result<Option<MavenPom>> = match self.files.get(url) {
+			None => Ok(None),
+			Some(xml) => serde_xml_rs::from_str::<MavenPom>(xml).map(Some).map_err(|e| anyhow::anyhow!("maven pom at {url}: {e}")),
+		};
+		async move { r }
+	}
+}
+
+fn real_scope(s: Sc) -> DependencyScope {
+	match s {
+		Sc::Compile => DependencyScope::Compile,
+		Sc::Runtime => DependencyScope::Runtime,
+		Sc::Provided => DependencyScope::Provided,
+		Sc::Test => DependencyScope::Test,
+		Sc::System => DependencyScope::System,
+	}
+}
+
+fn model_scope(s: DependencyScope) -> Sc {
+	match s {
+		DependencyScope::Compile => Sc::Compile,
+		DependencyScope::Runtime => Sc::Runtime,
+		DependencyScope::Provided => Sc::Provided,
+		DependencyScope::Test => Sc::Test,
+		DependencyScope::System => Sc::System,
+	}
+}
+
+#[derive(Debug)]
+struct RealOut {
+	list: Vec<Found>,
+	foreign_group: bool,
+	/// Display forms of everything returned, for the round trips
+	roundtrip_failures: Vec<(&'static str, String)>,
+	roundtrips: u64,
+}
+
+fn roundtrip_found(f: &FoundDependency<'_>, fails: &mut Vec<(&'static str, String)>) -> u64 {
+	let text = f.to_string();
+	match FoundDependency::try_from(text.as_str()) {
+		Ok(back) => {
+			if back.coord != f.coord || back.scope != f.scope || back.resolver.maven != f.resolver.maven {
+				fails.push(("roundtrip:found-dependency", format!("{text:?} parsed back as {back:?}")));
+			} else if back.to_string() != text {
+				fails.push(("roundtrip:found-dependency", format!("{text:?} printed again as {:?}", back.to_string())));
+			}
+		},
+		Err(e) => fails.push(("roundtrip:found-dependency", format!("{text:?} is not parsed back: {e:#}"))),
+	}
+	let ctext = f.coord.to_string();
+	match MavenCoord::from_str(&ctext) {
+		Ok(back) if back == f.coord => {},
+		Ok(back) => fails.push(("roundtrip:coord", format!("{ctext:?} parsed back as {back:?}"))),
+		Err(e) => fails.push(("roundtrip:coord", format!("{ctext:?} is not parsed back: {e:#}"))),
+	}
+	let stext = f.scope.to_string();
+	match DependencyScope::from_str(&stext) {
+		Ok(back) if back == f.scope => {},
+		other => fails.push(("roundtrip:scope", format!("{stext:?} parsed back as {other:?}"))),
+	}
+	3
+}
+
+fn run_real(u: &Universe) -> Result<Result<RealOut, String>, vcore::Panic> {
+	let mem = Mem { files: u.served() };
+	let resolvers: Vec<Resolver> = u.repos.iter().map(|(n, url)| Resolver::new(n, url)).collect();
+	let roots: Vec<(MavenCoord, DependencyScope)> = u.roots.iter().map(|r| (MavenCoord {
+		group: GROUP.to_owned(),
+		artifact: r.artifact.clone(),
+		version: r.version.clone(),
+		classifier: r.classifier.clone(),
+		type_: r.type_.clone(),
+	}, real_scope(r.scope))).collect();
+	vcore::guard(|| {
+		let r = block_on(get_maven_dependencies(&mem, &resolvers, &roots));
+		match r {
+			Err(e) => Err(format!("{e:#}")),
+			Ok(v) => {
+				let mut out = RealOut { list: Vec::new(), foreign_group: false, roundtrip_failures: Vec::new(), roundtrips: 0 };
+				for f in &v {
+					out.roundtrips += roundtrip_found(f, &mut out.roundtrip_failures);
+					if f.coord.group != GROUP {
+						out.foreign_group = true;
+					}
+					out.list.push(Found {
+						artifact: f.coord.artifact.clone(),
+						version: f.coord.version.clone(),
+						classifier: f.coord.classifier.clone(),
+						type_: f.coord.type_.clone(),
+						scope: model_scope(f.scope),
+						repo_name: f.resolver.name.to_string(),
+						repo_url: f.resolver.maven.to_string(),
+					});
+				}
+				Ok(out)
+			},
+		}
+	})
+}
+
+// ---------------------------------------------------------------------------------------------
+// accumulators
+
+#[derive(Default, Clone)]
+struct Acc {
+	st: Stats,
+	cases_with_nearer: u64,
+	cases_with_tie: u64,
+	cases_with_discarded_contribution: u64,
+	cells: [[u64; 5]; 5],
+	optional_cuts: u64,
+	version_fills: [u64; 3],
+	scope_fills: [u64; 3],
+	second_repo_results: u64,
+	classifier_or_type_results: u64,
+	roundtrips: u64,
+	invalid_combinations: u64,
+	max_result_len: u64,
+}
+
+impl Acc {
+	fn new() -> Acc {
+		Acc::default()
+	}
+	fn facts(&mut self, f: &Facts, len: usize) {
+		self.cases_with_nearer += (f.nearer_won > 0) as u64;
+		self.cases_with_tie += (f.ties > 0) as u64;
+		self.cases_with_discarded_contribution += f.discarded_contribution as u64;
+		for i in 0..5 {
+			for j in 0..5 {
+				self.cells[i][j] += f.cells[i][j] as u64;
+			}
+		}
+		self.optional_cuts += f.optional_cuts as u64;
+		for i in 0..3 {
+			self.version_fills[i] += f.version_fills[i] as u64;
+			self.scope_fills[i] += f.scope_fills[i] as u64;
+		}
+		self.second_repo_results += f.second_repo_results as u64;
+		self.classifier_or_type_results += f.classifier_or_type_results as u64;
+		self.max_result_len = self.max_result_len.max(len as u64);
+	}
+	fn merge(mut self, o: Acc) -> Acc {
+		self.st = self.st.merge(o.st);
+		self.cases_with_nearer += o.cases_with_nearer;
+		self.cases_with_tie += o.cases_with_tie;
+		self.cases_with_discarded_contribution += o.cases_with_discarded_contribution;
+		for i in 0..5 {
+			for j in 0..5 {
+				self.cells[i][j] += o.cells[i][j];
+			}
+		}
+		self.optional_cuts += o.optional_cuts;
+		for i in 0..3 {
+			self.version_fills[i] += o.version_fills[i];
+			self.scope_fills[i] += o.scope_fills[i];
+		}
+		self.second_repo_results += o.second_repo_results;
+		self.classifier_or_type_results += o.classifier_or_type_results;
+		self.roundtrips += o.roundtrips;
+		self.invalid_combinations += o.invalid_combinations;
+		self.max_result_len = self.max_result_len.max(o.max_result_len);
+		self
+	}
+}
+
+// ---------------------------------------------------------------------------------------------
+// one case
+
+const TOLERANCES: [Sem; 4] = [
+	Sem { inherited_first: false, system_as_provided: false, parent_context: false },
+	Sem { inherited_first: true, system_as_provided: false, parent_context: false },
+	Sem { inherited_first: false, system_as_provided: true, parent_context: false },
+	Sem { inherited_first: true, system_as_provided: true, parent_context: false },
+];
+
+fn show_list(l: &[Found]) -> String {
+	if l.is_empty() {
+		return "  (nothing)\n".to_owned();
+	}
+	l.iter().map(|f| format!("  {}\n", f.show())).collect()
+}
+
+/// classifies how two lists differ (the kind of the difference, no names)
+fn difference_kind(expected: &[Found], actual: &[Found]) -> &'static str {
+	let id = |f: &Found| (f.artifact.clone(), f.classifier.clone(), f.type_.clone());
+	let mut e_ids: Vec<_> = expected.iter().map(id).collect();
+	let mut a_ids: Vec<_> = actual.iter().map(id).collect();
+	let mut a_sorted = a_ids.clone();
+	a_sorted.sort();
+	if a_sorted.windows(2).any(|w| w[0] == w[1]) {
+		return "duplicate-artifact-in-result";
+	}
+	if a_ids == e_ids {
+		// same artifacts in the same order
+		if expected.iter().zip(actual).any(|(e, a)| e.version != a.version) {
+			return "wrong-version-selected";
+		}
+		if expected.iter().zip(actual).any(|(e, a)| e.scope != a.scope) {
+			return "wrong-scope";
+		}
+		return "wrong-repository";
+	}
+	e_ids.sort();
+	a_ids.sort();
+	if e_ids == a_ids {
+		return "order-not-breadth-first";
+	}
+	if a_ids.iter().any(|a| !e_ids.contains(a)) {
+		if e_ids.iter().any(|e| !a_ids.contains(e)) {
+			return "different-artifacts";
+		}
+		return "extra-artifact";
+	}
+	"missing-artifact"
+}
+
+struct CaseId<'a> {
+	family: &'a str,
+	base_idx: usize,
+	base: &'a Base,
+	all: &'a [Dev],
+	idxs: &'a [usize],
+}
+
+impl CaseId<'_> {
+	fn id(&self) -> String {
+		format!("{}/{}/{}", self.family, self.base_idx, self.idxs.iter().map(|i| i.to_string()).collect::<Vec<_>>().join("."))
+	}
+	fn describe(&self, u: &Universe) -> String {
+		let mut s = format!("case={}\nbase: {}\ndeviations:\n", self.id(), self.base.show());
+		for i in self.idxs {
+			s.push_str(&format!("  {}\n", gen::describe_dev(self.base, &self.all[*i])));
+		}
+		s.push_str(&u.describe());
+		s
+	}
+}
+
+fn run_case(ctx: &Ctx, acc: &mut Acc, c: &CaseId) {
+	let devs: Vec<Dev> = c.idxs.iter().map(|i| c.all[*i]).collect();
+	let Some(u) = gen::build(c.base, &devs) else {
+		acc.invalid_combinations += 1;
+		return;
+	};
+	judge(ctx, acc, &u, &|| c.describe(&u), c.idxs.len());
+}
+
+fn judge(ctx: &Ctx, acc: &mut Acc, u: &Universe, describe: &dyn Fn() -> String, level: usize) {
+	let primary = match oracle::resolve(u, TOLERANCES[0]) {
+		Ok(r) => r,
+		Err(e) => vcore::machinery_fail(&format!("the generator produced a universe the reference cannot resolve ({e:?}):\n{}", describe())),
+	};
+	acc.st.eval();
+	acc.facts(&primary.facts, primary.list.len());
+	let f = &primary.facts;
+	let fills: u32 = f.version_fills.iter().sum::<u32>() + f.scope_fills.iter().sum::<u32>();
+	let cuts: u32 = f.optional_cuts + (0..5).map(|i| f.cells[i][2] + f.cells[i][3] + f.cells[i][4]).sum::<u32>();
+	let nontrivial = f.nearer_won + f.ties + f.duplicates + fills + cuts > 0;
+	if nontrivial {
+		acc.st.distinct.add(u);
+	}
+	let class = if f.nearer_won + f.ties > 0 {
+		"version-conflict-mediated"
+	} else if f.duplicates > 0 {
+		"duplicate-dropped"
+	} else if cuts > 0 {
+		"cut-only"
+	} else if fills > 0 {
+		"management-only"
+	} else {
+		"plain"
+	};
+	let with_text = |extra: String| format!("{}expected (reference):\n{}{}", describe(), show_list(&primary.list), extra);
+
+	let real = match run_real(u) {
+		Err(p) => {
+			acc.st.outcome("panic");
+			ctx.diff(&format!("panic@{}", p.file()), &format!("resolver panicked at {}: {}", p.site, p.msg), || with_text(String::new()));
+			return;
+		},
+		Ok(r) => r,
+	};
+	let empty_element = u.files.iter().any(|(_, p)| matches!(p.render, model::Render::EmptyDeps | model::Render::EmptyDmDeps));
+	match real {
+		Err(msg) => {
+			// every generated universe is valid: a refusal is a difference
+			let deviant_refuses = TOLERANCES.iter().any(|t| matches!(oracle::resolve(u, Sem { parent_context: true, ..*t }), Err(Fail::NoVersion(_))));
+			let key = if empty_element && msg.contains("missing field `dependency`") {
+				"xml:empty-dependencies-element-refused"
+			} else if deviant_refuses && msg.contains("no dependency found matching") {
+				"inherit:child-management-not-applied-to-inherited-dependency"
+			} else {
+				"resolve:valid-universe-refused"
+			};
+			acc.st.outcome(&format!("refused:{key}"));
+			ctx.diff(key, &format!("a valid universe was refused: {msg}"), || with_text(format!("actual: error: {msg}\n")));
+		},
+		Ok(out) => {
+			acc.roundtrips += out.roundtrips;
+			for (key, what) in &out.roundtrip_failures {
+				ctx.diff(key, what, || with_text(String::new()));
+			}
+			if out.foreign_group {
+				ctx.diff("resolve:foreign-group", "a result carries a group that occurs nowhere in the universe", || with_text(format!("actual:\n{}", show_list(&out.list))));
+			}
+			let mut accepted = None;
+			if out.list == primary.list {
+				accepted = Some(0);
+			} else {
+				for (i, t) in TOLERANCES.iter().enumerate().skip(1) {
+					if oracle::resolve(u, *t).map(|r| r.list == out.list).unwrap_or(false) {
+						accepted = Some(i);
+						break;
+					}
+				}
+			}
+			match accepted {
+				Some(0) => {
+					acc.st.outcome(&format!("agree:{class}"));
+					let tag = format!("{class}/{level}");
+					acc.st.sample(&tag, || json!({
+						"kind": "universe",
+						"class": class,
+						"deviations": level,
+						"roots": u.roots.iter().map(|r| format!("{}:{}:{}{}:{} ({})", GROUP, r.artifact, r.type_, r.classifier.as_deref().map(|c| format!(":{c}")).unwrap_or_default(), r.version, r.scope.name())).collect::<Vec<_>>(),
+						"files": u.served(),
+						"resolved": out.list.iter().map(Found::show).collect::<Vec<_>>(),
+					}));
+				},
+				Some(i) => {
+					let t = TOLERANCES[i];
+					acc.st.outcome(&format!("agree-within-tolerance:{}{}", if t.inherited_first { "inherited-dependencies-first;" } else { "" }, if t.system_as_provided { "below-system-reported-as-provided;" } else { "" }));
+				},
+				None => {
+					let deviant = TOLERANCES.iter().any(|t| oracle::resolve(u, Sem { parent_context: true, ..*t }).map(|r| r.list == out.list).unwrap_or(false));
+					let kind = difference_kind(&primary.list, &out.list);
+					let key = if deviant { "inherit:child-management-not-applied-to-inherited-dependency".to_owned() } else { format!("resolve:{kind}") };
+					acc.st.outcome(&format!("differ:{key}"));
+					ctx.diff(&key, &format!("resolved list differs from the documented rules ({kind})"), || with_text(format!("actual:\n{}", show_list(&out.list))));
+				},
+			}
+		},
+	}
+}
+
+// ---------------------------------------------------------------------------------------------
+// families, levels
+
+fn family_bases(name: &str) -> Vec<Base> {
+	let lists = |n: usize, lens: std::ops::RangeInclusive<usize>| -> Vec<Base> {
+		gen::root_lists(n, *lens.end()).into_iter().filter(|l| lens.contains(&l.len())).flat_map(|l| gen::bases(n, &l)).collect()
+	};
+	match name {
+		// one root a:1, every graph over four artifacts
+		"F4" => gen::bases(4, &[(0, 1)]),
+		// one root a:1, every graph over three artifacts
+		"F3" => gen::bases(3, &[(0, 1)]),
+		// every root list of one or two roots, every graph over three artifacts
+		"R3" => lists(3, 1..=2),
+		// every root list of three roots over three artifacts
+		"R3x3" => lists(3, 3..=3),
+		// every root list of exactly two roots over four artifacts
+		"R4x2" => lists(4, 2..=2),
+		_ => vcore::machinery_fail(&format!("unknown family {name:?}")),
+	}
+}
+
+struct Plan {
+	family: &'static str,
+	level: usize,
+	max_rank: u8,
+}
+
+fn plans(tier: vcore::Tier) -> Vec<Plan> {
+	let mut v = vec![
+		Plan { family: "F4", level: 0, max_rank: 0 },
+		Plan { family: "R3", level: 0, max_rank: 0 },
+		Plan { family: "R3x3", level: 0, max_rank: 0 },
+		Plan { family: "R4x2", level: 0, max_rank: 0 },
+		Plan { family: "F4", level: 1, max_rank: 2 },
+		Plan { family: "R3", level: 1, max_rank: 0 },
+		Plan { family: "F3", level: 2, max_rank: 2 },
+	];
+	if tier == vcore::Tier::Thorough {
+		v.extend([
+			Plan { family: "R3", level: 1, max_rank: 2 },
+			Plan { family: "R4x2", level: 1, max_rank: 0 },
+			Plan { family: "F4", level: 2, max_rank: 0 },
+			Plan { family: "R3", level: 2, max_rank: 0 },
+			Plan { family: "F3", level: 3, max_rank: 0 },
+		]);
+	}
+	v
+}
+
+/// every k-subset (increasing indices) of the deviations of rank ≤ max_rank that starts with `first`
+fn for_each_combo(all: &[Dev], max_rank: u8, level: usize, first: Option<usize>, f: &mut dyn FnMut(&[usize])) {
+	let Some(first) = first else {
+		f(&[]);
+		return;
+	};
+	fn rec(all: &[Dev], max_rank: u8, left: usize, cur: &mut Vec<usize>, f: &mut dyn FnMut(&[usize])) {
+		if left == 0 {
+			f(cur);
+			return;
+		}
+		let start = cur.last().map(|l| l + 1).unwrap_or(0);
+		for i in start..all.len() {
+			if all[i].rank > max_rank {
+				continue;
+			}
+			// two values of one attribute of one site are never combined
+			if cur.iter().any(|c| all[*c].site == all[i].site && all[*c].attr == all[i].attr) {
+				continue;
+			}
+			cur.push(i);
+			rec(all, max_rank, left - 1, cur, f);
+			cur.pop();
+		}
+	}
+	let mut cur = vec![first];
+	rec(all, max_rank, level - 1, &mut cur, f);
+}
+
+fn run_plan(ctx: &'static Ctx, plan: &Plan) -> (Acc, u64) {
+	let bases = family_bases(plan.family);
+	let devs: Vec<Vec<Dev>> = bases.iter().map(gen::all_devs).collect();
+	let mut items: Vec<(usize, Option<usize>)> = Vec::new();
+	for (bi, d) in devs.iter().enumerate() {
+		if plan.level == 0 {
+			items.push((bi, None));
+		} else {
+			for (i, dev) in d.iter().enumerate() {
+				if dev.rank <= plan.max_rank {
+					items.push((bi, Some(i)));
+				}
+			}
+		}
+	}
+	let n_bases = bases.len() as u64;
+	let acc = items.into_par_iter().fold(Acc::new, |mut acc, (bi, first)| {
+		vcore::watched(|| format!("case={}/{}/{:?} (level {})", plan.family, bi, first, plan.level), || {
+			for_each_combo(&devs[bi], plan.max_rank, plan.level, first, &mut |idxs| {
+				run_case(ctx, &mut acc, &CaseId { family: plan.family, base_idx: bi, base: &bases[bi], all: &devs[bi], idxs });
+			});
+		});
+		acc
+	}).reduce(Acc::new, Acc::merge);
+	(acc, n_bases)
+}
+
+// ---------------------------------------------------------------------------------------------
+// outside the statement's domain: a POM that no repository serves. Only "no panic, no hang" is asked.
+
+fn run_missing(ctx: &Ctx, acc: &mut Acc, family: &str, bi: usize, base: &Base, k: usize) {
+	let Some(mut u) = gen::build(base, &[]) else { return };
+	if k >= u.files.len() {
+		return;
+	}
+	let gone = u.files.remove(k);
+	acc.st.eval();
+	match run_real(&u) {
+		Err(p) => ctx.diff(&format!("missing-pom:panic@{}", p.file()), &format!("resolver panicked at {}: {}", p.site, p.msg), || format!("case={family}/{bi}/\nmissing={k}\nremoved file: {}:{}\nbase: {}\n{}", gone.1.artifact, gone.1.version, base.show(), u.describe())),
+		Ok(Err(_)) => acc.st.outcome("missing-pom:refused"),
+		Ok(Ok(_)) => acc.st.outcome("missing-pom:not-needed-or-ignored"),
+	}
+}
+
+fn missing_sweep(ctx: &'static Ctx, family: &'static str) -> Acc {
+	let bases = family_bases(family);
+	(0..bases.len()).into_par_iter().fold(Acc::new, |mut acc, bi| {
+		vcore::watched(|| format!("case={family}/{bi}/ missing=*"), || {
+			for k in 0..bases[bi].n * 2 {
+				run_missing(ctx, &mut acc, family, bi, &bases[bi], k);
+			}
+		});
+		acc
+	}).reduce(Acc::new, Acc::merge)
+}
+
+// ---------------------------------------------------------------------------------------------
+// round trips over a product of field values
+
+fn roundtrip_sweep(ctx: &Ctx) -> (u64, u64) {
+	let groups = ["o.g", "g", "org.example.deep"];
+	let artifacts = ["a", "a-b", "a_b.c"];
+	let versions = ["1", "1.0", "1.0-SNAPSHOT", "2.0.1-20230713.025619-1", "v"];
+	let classifiers = [None, Some("k"), Some("sources"), Some("natives-linux")];
+	let types = ["jar", "ejb", "pom", "test-jar", "zip"];
+	let urls = ["mem://one.invalid/repo", "https://two.invalid:8080/maven/"];
+	let mut n = 0u64;
+	let mut values = 0u64;
+	for g in groups {
+		for a in artifacts {
+			for v in versions {
+				for c in classifiers {
+					for t in types {
+						let coord = MavenCoord { group: g.to_owned(), artifact: a.to_owned(), version: v.to_owned(), classifier: c.map(str::to_owned), type_: t.to_owned() };
+						for s in SCOPES {
+							for url in urls {
+								let f = FoundDependency { resolver: Resolver::new("name", url), coord: coord.clone(), scope: real_scope(s) };
+								let mut fails = Vec::new();
+								match vcore::guard(|| roundtrip_found(&f, &mut fails)) {
+									Ok(k) => n += k,
+									Err(p) => ctx.diff(&format!("roundtrip:panic@{}", p.file()), &format!("printing or parsing panicked at {}: {}", p.site, p.msg), || format!("roundtrip={f:?}")),
+								}
+								for (key, what) in fails {
+									ctx.diff(key, &what, || format!("roundtrip={f:?}"));
+								}
+								values += 1;
+							}
+						}
+						// the short forms documented for MavenCoord: type and classifier may be left out
+						if c.is_none() {
+							let short = if t == "jar" { format!("{g}:{a}:{v}") } else { format!("{g}:{a}:{t}:{v}") };
+							match vcore::guard(|| MavenCoord::from_str(&short)) {
+								Ok(Ok(back)) if back == coord => {},
+								Ok(other) => ctx.diff("roundtrip:coord-short-form", &format!("{short:?} parsed as {other:?}"), || format!("roundtrip={coord:?}")),
+								Err(p) => ctx.diff(&format!("roundtrip:panic@{}", p.file()), &p.msg, || format!("roundtrip={coord:?}")),
+							}
+							n += 1;
+						}
+					}
+				}
+			}
+		}
+	}
+	(n, values)
+}
+
+// ---------------------------------------------------------------------------------------------
 
 fn main() {
-	let cases = [
-		"<project><modelVersion>4.0.0</modelVersion><groupId>g</groupId><artifactId>a</artifactId><version>1</version><dependencies/></project>",
-		"<project><modelVersion>4.0.0</modelVersion><groupId>g</groupId><artifactId>a</artifactId><version>1</version><dependencies></dependencies></project>",
-		"<project><modelVersion>4.0.0</modelVersion><groupId>g</groupId><artifactId>a</artifactId><version>1</version><dependencyManagement/></project>",
-		"<project><modelVersion>4.0.0</modelVersion><groupId>g</groupId><artifactId>a</artifactId><version>1</version><dependencyManagement><dependencies/></dependencyManagement></project>",
-		"<?xml version=\"1.0\" encoding=\"UTF-8\"?>\n<project xmlns=\"http://maven.apache.org/POM/4.0.0\" xmlns:xsi=\"http://www.w3.org/2001/XMLSchema-instance\" xsi:schemaLocation=\"http://maven.apache.org/POM/4.0.0 http://maven.apache.org/xsd/maven-4.0.0.xsd\"><modelVersion>4.0.0</modelVersion><name>x</name><licenses><license><name>MIT</name></license></licenses><groupId>g</groupId><artifactId>a</artifactId><version>1</version><dependencies><dependency><groupId>g</groupId><artifactId>b</artifactId><version>1</version><optional>true</optional><scope>test</scope><exclusions><exclusion><groupId>x</groupId><artifactId>y</artifactId></exclusion></exclusions></dependency></dependencies></project>",
-		"<project><modelVersion>4.0.0</modelVersion><artifactId>a</artifactId><dependencies><dependency><artifactId>b</artifactId><groupId>g</groupId></dependency></dependencies><version>1</version><parent><version>1</version><groupId>g</groupId><artifactId>p</artifactId></parent></project>",
-		"<project><modelVersion>4.0.0</modelVersion><groupId>g</groupId><artifactId>a</artifactId><version>1</version><dependencies><dependency><groupId>g</groupId><artifactId>b</artifactId><version>1</version></dependency></dependencies><name>n</name><dependencies><dependency><groupId>g</groupId><artifactId>c</artifactId><version>1</version></dependency></dependencies></project>",
-		"<project><modelVersion>4.0.0</modelVersion><groupId>g</groupId><artifactId>a</artifactId><version>1</version><dependencies><dependency><groupId>g</groupId><artifactId>b</artifactId><version>1</version><scope>import</scope></dependency></dependencies></project>",
-		"<project>\n  <modelVersion>4.0.0</modelVersion>\n  <groupId>g</groupId>\n  <artifactId>a</artifactId>\n  <version>1</version>\n  <dependencies>\n    <dependency>\n      <groupId>g</groupId>\n      <artifactId>b</artifactId>\n      <version>1</version>\n      <optional> true </optional>\n    </dependency>\n  </dependencies>\n</project>",
-	];
-	for c in cases {
-		let r: Result<MavenPom, _> = serde_xml_rs::from_str(c);
-		println!("{:?}\n", r);
+	let ctx: &'static Ctx = Box::leak(Box::new(Ctx::new("C19", "exploration")));
+	if let Some(path) = ctx.replay.clone() {
+		replay(ctx, &path);
 	}
+	vcore::set_case_budget_ms(180_000);
+	let mut total = Acc::new();
+	let mut per_plan: Vec<Value> = Vec::new();
+	for plan in plans(ctx.tier) {
+		let t0 = ctx.elapsed_s();
+		let (acc, n_bases) = run_plan(ctx, &plan);
+		per_plan.push(json!({
+			"family": plan.family,
+			"deviations": plan.level,
+			"alphabet_rank": plan.max_rank,
+			"bases": n_bases,
+			"cases": acc.st.evaluations,
+			"combinations_without_meaning_skipped": acc.invalid_combinations,
+			"wall_s": ((ctx.elapsed_s() - t0) * 100.0).round() / 100.0,
+		}));
+		total = total.merge(acc);
+	}
+	let missing = missing_sweep(ctx, "F4");
+	let missing_cases = missing.st.evaluations;
+	let missing_outcomes = missing.st.outcomes.clone();
+	let (rt_calls, rt_values) = roundtrip_sweep(ctx);
+
+	let agree: u64 = total.st.outcomes.iter().filter(|(k, _)| k.starts_with("agree")).map(|(_, v)| *v).sum();
+	ctx.floor("universes where the nearer of two versions was chosen", ctx.tier.pick(20_000, 100_000), total.cases_with_nearer);
+	ctx.floor("universes with a tie decided by declaration order", 1_000, total.cases_with_tie);
+	ctx.floor("universes where a discarded subtree would have contributed an artifact", 1_000, total.cases_with_discarded_contribution);
+	for l in SCOPES {
+		for t in SCOPES {
+			ctx.floor(&format!("scope table cell dependent={} dependency={}", l.name(), t.name()), 1, total.cells[l.idx()][t.idx()]);
+		}
+	}
+	let names = ["own pom", "parent", "imported bom"];
+	for i in 0..3 {
+		ctx.floor(&format!("versions filled in from the management of: {}", names[i]), 100, total.version_fills[i]);
+		ctx.floor(&format!("scopes filled in from the management of: {}", names[i]), 10, total.scope_fills[i]);
+	}
+	ctx.floor("optional dependencies cut", 100, total.optional_cuts);
+	ctx.floor("results served by the second repository", 100, total.second_repo_results);
+	ctx.floor("results with classifier or non-default type", 100, total.classifier_or_type_results);
+	ctx.floor("universes on which real resolver and reference agree", total.st.evaluations / 2, agree);
+	ctx.floor("round trips of values returned by the resolver", 10_000, total.roundtrips);
+
+	let cells: BTreeMap<String, u64> = SCOPES.iter().flat_map(|l| SCOPES.iter().map(move |t| (format!("{}<-{}", l.name(), t.name()), 0u64))).map(|(k, _)| k).zip(total.cells.iter().flatten().copied()).collect();
+	let coverage = json!({
+		"evaluations": total.st.evaluations + missing_cases + rt_calls + total.roundtrips,
+		"missing_pom_sweep": {"cases": missing_cases, "outcomes": missing_outcomes, "rule": "every F4 base with each one of its 8 POM files removed in turn; outside the statement's domain, only panics and hangs are differences"},
+		"resolutions": total.st.evaluations,
+		"roundtrip_calls": rt_calls + total.roundtrips,
+		"roundtrip_sweep_values": rt_values,
+		"distinct_nontrivial": total.st.distinct.len(),
+		"rule": "one evaluation = one call of the real get_maven_dependencies on a generated universe served as POM XML through the Downloader trait (or one Display→parse round trip of a real value). distinct_nontrivial = distinct universes (files + roots) in which the reference saw at least one mediation loser, cut (optional / non-transitive scope) or management fill-in",
+		"exhaustive": true,
+		"samples": total.st.samples,
+		"outcomes": total.st.outcomes,
+		"plans": per_plan,
+		"scope_table_cells": cells,
+		"max_result_length": total.max_result_len,
+		"bounds": {
+			"artifacts": "a<b<c<d in group o.g (families F4/R4x2) or a<b<c (F3/R3/R3x3), versions {1,2}; dependencies only on later artifacts, at most 2 ordered dependencies per POM on distinct artifacts",
+			"families": {
+				"F4": "root list [a:1], every graph over 4 artifacts (POMs unreachable from the roots stay empty)",
+				"F3": "root list [a:1], every graph over 3 artifacts",
+				"R3": "every root list of 1 or 2 roots on distinct artifacts × every graph over 3 artifacts",
+				"R3x3": "every root list of 3 roots × every graph over 3 artifacts",
+				"R4x2": "every root list of exactly 2 roots × every graph over 4 artifacts",
+			},
+			"deviation_alphabet": {
+				"per dependency": "scope ∈ {compile (explicit), runtime, provided, test, system}; optional ∈ {true, false}; classifier k; type ∈ {ejb, jar (explicit)}; 14 management layouts (version omitted + managed in own POM / parent / imported BOM / grandparent / BOM of the parent / BOM of the BOM / parent of the BOM; own over BOM, own over parent, first BOM over second BOM, parent over grandparent with the other version in the lower place; version given while own/parent/BOM manage the other version); managed scope ∈ {compile, runtime, provided, test}",
+				"per POM": "groupId from parent; version from parent; parent declares one more dependency (every later artifact × version not declared by the child) in 8 modes (plain; version managed by the parent; by the parent but the child manages another version; only by the child; scope managed by the child; runtime; optional; declared by the grandparent); served by the second repository only / by both with different content in the second / parents and BOMs in the second; 6 XML renderings (unrelated elements and namespaces, reversed element order, indentation and comments, empty <dependencies/>, empty <dependencyManagement/>, empty managed <dependencies/>)",
+				"roots": "scope ∈ {runtime, provided, test, system}; classifier; type ejb; a second root (every other artifact × version) before or after",
+				"rank": "alphabet_rank 0 = core values only (scope runtime/test, optional true, classifier, type ejb, the 4 basic management layouts, managed scope runtime/test, groupId from parent, parent dependency and its 4 management modes, repository modes, empty <dependencies/>, root scope runtime/test, second root); 2 = everything",
+			},
+			"tolerances": [
+				"dependencies inherited from a parent may be listed before or after the child's own ones (the documentation does not say; Maven itself lists the child's first)",
+				"what hangs below a root of scope system may be reported with scope system or provided (system is not in the scope table; 'similar to provided')",
+				"a transitive dependency of scope system is expected to be cut like provided",
+				"the scope of a mediation winner is the scope of the winning occurrence (the statement does not ask for Maven's widening of scopes across occurrences)",
+			],
+			"outside": "property interpolation, version ranges, exclusions, profiles, imports declared before managed entries, a child re-declaring a parent's dependency, optional in dependencyManagement, conflicting management between a parent's entry and a child's import, missing POMs, cycles",
+		},
+	});
+	ctx.finish(coverage, &[
+		"every future of the resolver is ready at first poll (checked: a Pending future aborts the run)",
+		"serde-xml-rs 0.6.0 (the version the application uses) binds the POM text to MavenPom inside the in-memory Downloader",
+		"the reference resolver in c19/oracle.rs is the independent reading of the Maven documentation",
+	]);
+}
+
+fn replay(ctx: &'static Ctx, path: &std::path::Path) -> ! {
+	let body = vcore::replay_body(path);
+	let mut acc = Acc::new();
+	if let Some(line) = body.lines().find(|l| l.starts_with("case=")) {
+		let id = line["case=".len()..].trim();
+		if let Some(m) = body.lines().find(|l| l.starts_with("missing=")) {
+			let parts: Vec<&str> = id.split('/').collect();
+			let bases = family_bases(parts[0]);
+			let bi: usize = parts.get(1).and_then(|s| s.parse().ok()).unwrap_or_else(|| vcore::machinery_fail("bad base index"));
+			let k: usize = m["missing=".len()..].trim().parse().unwrap_or_else(|_| vcore::machinery_fail("bad file index"));
+			let base = bases.get(bi).unwrap_or_else(|| vcore::machinery_fail("base index out of range"));
+			run_missing(ctx, &mut acc, parts[0], bi, base, k);
+			ctx.finish(json!({"evaluations": 1, "distinct_nontrivial": 1, "rule": "replay", "samples": ["replay"], "exhaustive": false, "outcomes": acc.st.outcomes}), &[]);
+		}
+		let parts: Vec<&str> = id.split('/').collect();
+		if parts.len() != 3 {
+			vcore::machinery_fail("bad case id in replay");
+		}
+		let bases = family_bases(parts[0]);
+		let bi: usize = parts[1].parse().unwrap_or_else(|_| vcore::machinery_fail("bad base index"));
+		let base = bases.get(bi).unwrap_or_else(|| vcore::machinery_fail("base index out of range"));
+		let all = gen::all_devs(base);
+		let idxs: Vec<usize> = parts[2].split('.').filter(|s| !s.is_empty()).map(|s| s.parse().unwrap_or_else(|_| vcore::machinery_fail("bad deviation index"))).collect();
+		if idxs.iter().any(|i| *i >= all.len()) {
+			vcore::machinery_fail("deviation index out of range");
+		}
+		let case = CaseId { family: parts[0], base_idx: bi, base, all: &all, idxs: &idxs };
+		let devs: Vec<Dev> = idxs.iter().map(|i| all[*i]).collect();
+		let u = gen::build(base, &devs).unwrap_or_else(|| vcore::machinery_fail("the replayed combination has no meaning"));
+		println!("{}", case.describe(&u));
+		let a = run_real(&u).map(|r| r.map(|o| o.list));
+		let b = run_real(&u).map(|r| r.map(|o| o.list));
+		if a != b {
+			vcore::machinery_fail("replay is not deterministic");
+		}
+		println!("reference:\n{}", oracle::resolve(&u, TOLERANCES[0]).map(|r| show_list(&r.list)).unwrap_or_else(|e| format!("  {e:?}\n")));
+		match &a {
+			Ok(Ok(l)) => println!("real:\n{}", show_list(l)),
+			other => println!("real: {other:?}"),
+		}
+		run_case(ctx, &mut acc, &case);
+	} else if body.starts_with("roundtrip=") {
+		roundtrip_sweep(ctx);
+	} else {
+		vcore::machinery_fail("replay file has no case= line");
+	}
+	ctx.finish(json!({"evaluations": acc.st.evaluations.max(1), "distinct_nontrivial": 1, "rule": "replay", "samples": ["replay"], "exhaustive": false, "outcomes": acc.st.outcomes}), &[]);
 }
